@@ -1,116 +1,15 @@
-import Pypika.RenderTerm
-import Pypika.Param
-import Pypika.Generated.Tables
+import Pypika.Agree.Classes
+import Pypika.Agree.Ops
+import Pypika.Agree.Pagination
+import Pypika.Agree.Edges
+import Pypika.Agree.FormatAlias
+import Pypika.Agree.Placeholders
+import Pypika.Agree.Interval
 /-!
 # Agree: the hand-written model equals the tables regenerated from `/repo` on every run
 
-Every theorem here is closed by `decide` over the *whole* finite domain of a table that
+Every theorem in the `Agree/*` modules (one module per table family, so that a change to one behaviour
+breaks only the obligations of the properties that rest on it) is closed by `decide` over the *whole* finite domain of a table that
 `harness/extract.py` obtained by calling the real code.  When the code changes one of these
 behaviours, the regenerated table differs, the `decide` fails and the build names the theorem.
 -/
-namespace Pypika.Agree
-open Pypika
-
-def allClasses : List QClass :=
-  [.generic, .mysql, .postgresql, .redshift, .oracle, .mssql, .sqlite, .vertica, .clickhouse, .snowflake]
-
-/-- G2: the table lists exactly the ten query classes, in order -/
-theorem classes_complete : Gen.classes.map (·.1) = allClasses := by decide
-
-/-- G2: QUOTE_CHAR / ALIAS_QUOTE_CHAR / query-alias quote per class -/
-theorem class_quotes :
-    Gen.classes.all (fun (c, q, aq, qaq, _) =>
-      decide (c.quoteChar = q) && decide (c.aliasQuoteChar = aq) && decide (c.queryAliasQuoteChar = qaq)) = true := by
-  decide
-
-/-- G2: every class uses `'` for literals (the model's `setDefaults` hard-codes it) -/
-theorem secondary_quote : Gen.secondaryQuotes.all (fun q => decide (q = some '\'')) = true := by decide
-
-/-- G1: operator spellings -/
-theorem arith_text : Gen.arithText.all (fun (o, t) => decide (o.text = t)) = true ∧ Gen.arithText.length = 6 := by decide
-theorem bool_text : Gen.boolText.all (fun (o, t) => decide (o.text = t)) = true ∧ Gen.boolText.length = 3 := by decide
-theorem order_text : Gen.orderText.all (fun (o, t) => decide (o.text = t)) = true ∧ Gen.orderText.length = 2 := by decide
-
-def topOf : Option Arith → TopOp | none => .none | some a => .op a
-
-/-- G3: `left_needs_parens` on its whole 6 × 7 domain -/
-theorem left_parens :
-    Gen.leftParens.all (fun (c, l, b) => decide (leftNeedsParens c (topOf l) = b)) = true ∧ Gen.leftParens.length = 42 := by
-  decide
-
-/-- G3: `right_needs_parens` on its whole 6 × 7 domain -/
-theorem right_parens :
-    Gen.rightParens.all (fun (c, l, b) => decide (rightNeedsParens c (topOf l) = b)) = true ∧ Gen.rightParens.length = 42 := by
-  decide
-
-def complexOf (o : Option BoolOp) : Term :=
-  match o with
-  | none => .basic ['='] (.field ['a'] none none) (.val (.num ['1']) none) none
-  | some op => .complex op (.field ['a'] none none) (.field ['a'] none none) none
-
-/-- G3: `ComplexCriterion.needs_brackets` on its whole 3 × 4 domain -/
-theorem needs_brackets :
-    Gen.needsBrackets.all (fun (s, c, b) => decide (needsBrackets s (complexOf c) = b)) = true ∧
-      Gen.needsBrackets.length = 12 := by
-  decide
-
-/-- G3: pagination tail of every dialect on the grid {None,0,1,7}² -/
-theorem pagination :
-    Gen.pagination.all (fun (c, l, o, t) => decide (flatten (paginate c l o) = t)) = true ∧
-      Gen.pagination.length = 160 := by
-  decide +kernel
-
-/-- G3: pagination tail of set operations on the same grid -/
-theorem setop_pagination :
-    Gen.setopPagination.all (fun (l, o, t) => decide (flatten (setopPaginate l o) = t)) = true ∧
-      Gen.setopPagination.length = 16 := by
-  decide +kernel
-
-/-- G3: `Edge.__str__` -/
-theorem edges : Gen.edges.all (fun (e, t) => decide (e.text = t)) = true ∧ Gen.edges.length = 10 := by decide +kernel
-
-/-- G3: `format_alias_sql` on all flag combinations -/
-theorem format_alias :
-    Gen.formatAlias.all (fun (a, q, aq, ak, t) =>
-      decide (flatten ([Piece.kw ['S']] ++ aliasDoc { aliasQuote := some aq, asKeyword := some ak } q a) = t)) = true ∧
-      Gen.formatAlias.length = 16 := by
-  decide +kernel
-
-def styleOf (s : Str) : Option ParamStyle :=
-  if s = "qmark".toList then some .qmark else if s = "numeric".toList then some .numeric
-  else if s = "format".toList then some .format else if s = "named".toList then some .named
-  else if s = "pyformat".toList then some .pyformat else none
-
-/-- placeholder generators and key slicing of the five collector classes -/
-theorem placeholders :
-    Gen.placeholders.all (fun (st, n, sql, key) =>
-      match styleOf st with
-      | some s => decide (placeholder s n = sql) && decide (paramKey s sql = key)
-      | none => false) = true ∧ Gen.placeholders.length = 30 := by
-  decide +kernel
-
-/-- G2: the interval templates: which dialects put the unit outside the quotes -/
-theorem interval_templates :
-    Gen.intervalTemplates.all (fun (d, t) =>
-      decide (t = if Dialect.intervalQuotesUnit (some d) then "INTERVAL '{expr} {unit}'".toList
-                  else "INTERVAL '{expr}' {unit}".toList)) = true ∧
-    ([Dialect.clickhouse, .mssql, .sqllite, .snowflake].all (fun d =>
-        Dialect.intervalQuotesUnit (some d) && !(Gen.intervalTemplates.map (·.1)).contains d)) = true := by
-  decide +kernel
-
-theorem interval_labels : Gen.intervalLabels = labels := by decide +kernel
-
-/-- G2: the trimming regular expression is still the one `intervalTrim` was written for -/
-theorem interval_pattern : Gen.intervalPattern = trimPatternText := by decide +kernel
-
-def ivOf (xs : List Nat) : IntervalArgs :=
-  { years := xs.getD 0 0, months := xs.getD 1 0, days := xs.getD 2 0, hours := xs.getD 3 0,
-    minutes := xs.getD 4 0, seconds := xs.getD 5 0, microseconds := xs.getD 6 0 }
-
-/-- the real `Interval.__str__` on every 7-tuple over {0,1,10,101} with ≤ 2 non-zero fields -/
-theorem interval_grid :
-    Gen.intervalGrid.all (fun (xs, t) => decide (intervalText none (ivOf xs) = t)) = true ∧
-      Gen.intervalGrid.length = 211 := by
-  decide +kernel
-
-end Pypika.Agree
